@@ -27,6 +27,27 @@ class Result:
         self.trace = None
 
 
+class _WarningsAsErrors:
+    """Environment knob (cfg["warn_error"]): run the history with Python's warnings filter set to
+    'error', as under `python -W error` / PYTHONWARNINGS=error.  The unchanged library reports
+    through print(), never through the warnings machinery, so nothing changes for it."""
+
+    def __init__(self, on):
+        self.on = on
+
+    def __enter__(self):
+        if self.on:
+            import warnings
+
+            self.cm = warnings.catch_warnings()
+            self.cm.__enter__()
+            warnings.simplefilter("error")
+
+    def __exit__(self, *a):
+        if self.on:
+            self.cm.__exit__(*a)
+
+
 def _package(run, sc, viol):
     res = Result()
     res.prop = run.prop
@@ -61,7 +82,8 @@ def generate(prop, verif_seed, tier, idx, fs=None, cfg_override=None):
     run = Run(prop, cfg, sc.oracles(cfg), fs=fs)
     viol = None
     try:
-        sc.generate(run, rng)
+        with _WarningsAsErrors(cfg.get("warn_error", False)):
+            sc.generate(run, rng)
     except Violation as v:
         viol = v
     finally:
@@ -76,8 +98,9 @@ def replay(prop, cfg, steps, trace=False):
     run = Run(prop, cfg, sc.oracles(cfg), record=True, trace=[] if trace else None)
     viol = None
     try:
-        for st in steps:
-            run.do(st)
+        with _WarningsAsErrors(cfg.get("warn_error", False)):
+            for st in steps:
+                run.do(st)
     except Violation as v:
         viol = v
     finally:
